@@ -312,6 +312,15 @@ Definition parse_pkcs1_public (n : option bytes) : result info :=
   match n with Some o => Ok (Info (bs "PKCS#1 public key") (pkcs1_attrs (twos o)) []) | None => Err "asn1" end.
 Definition parse_pkcs1_private (n : option bytes) : result info :=
   match n with Some o => Ok (Info (bs "PKCS#1 private key") (pkcs1_attrs (twos o)) []) | None => Err "asn1" end.
+(* der.go:359 parsePKCS1PrivateKey does not look at the version: an RSAPrivateKey of version 1
+   (multi-prime, RFC 8017 A.1.2; asn1struct.PKCS1PrivateKey has the optional AdditionalPrimes) is
+   described like a two-prime one.  strict = true is a variant that refuses versions other than 0 *)
+Definition parse_pkcs1_private_gen (strict : bool) (version : Z) (n : option bytes) : result info :=
+  match n with
+  | Some o => if strict && negb (Z.eqb version 0) then Err "not a PKCS#1 private key"
+              else Ok (Info (bs "PKCS#1 private key") (pkcs1_attrs (twos o)) [])
+  | None => Err "asn1"
+  end.
 Definition parse_dsa_private (p : option bytes) : result info :=
   match p with Some o => Ok (Info (bs "DSA private key") (dsa_attrs (twos o)) []) | None => Err "asn1" end.
 Definition parse_dsa_parameters (p : option bytes) : result info :=
@@ -735,7 +744,55 @@ Definition pgp_size (exact : bool) (declared : N) (raw : bytes) : N :=
   if exact then declared else 8 * N.of_nat (length (
     (fix strip (b : bytes) : bytes := match b with 0 :: r => strip r | _ => b end) raw)).
 
-Definition pgp_key_facts_gen (exact : bool) (body : bytes) : result (list attr) :=
+(* parseOID (public_key.go:58): one length octet (at most maxOIDLength), then the OID octets *)
+Definition pgp_read_oid (r : bytes) : result (bytes * bytes) :=
+  let* (l, r1) := read_full 1 r in
+  let n := nth 0 l 0 in
+  if gen.PgpTables.pgp_max_oid_len <? n then Err "invalid oid length" else read_full (N.to_nat n) r1.
+
+(* the curve a key's OID names, by the regenerated table (name, OID octets) *)
+Fixpoint pgp_curve_of_oid_in (t : list (bytes * bytes)) (oid : bytes) : option bytes :=
+  match t with
+  | [] => None
+  | (name, o) :: r => if bytes_eqb o oid then Some name else pgp_curve_of_oid_in r oid
+  end.
+Definition pgp_curve_of_oid : bytes -> option bytes := pgp_curve_of_oid_in gen.PgpTables.pgp_oids.
+Definition pgp_is_nist (name : bytes) : bool :=
+  bytes_eqb name (bs "P-256") || bytes_eqb name (bs "P-384") || bytes_eqb name (bs "P-521").
+
+(* ecdhKdf.parse (public_key.go:127) *)
+Definition pgp_read_kdf (r : bytes) : result bytes :=
+  let* (l, r1) := read_full 1 r in
+  let n := nth 0 l 0 in
+  if n <? 3 then Err "Unsupported ECDH KDF length" else
+  let* (b, r2) := read_full (N.to_nat n) r1 in
+  if negb (nth 0 b 0 =? 1) then Err "Unsupported KDF reserved field" else Ok r2.
+
+(* elliptic-curve keys: BitLength knows no size for them, so only Algorithm and, when the parsed key is
+   an *ecdsa.PublicKey or an ed25519.PublicKey, Curve are shown.  point_ok: elliptic.Unmarshal's verdict *)
+Definition pgp_ec_facts (point_ok : bool) (algo : N) (r : bytes) : result (list attr) :=
+  let alg := (bs "Algorithm", pgp_algo_name algo) in
+  let* (oid, r1) := pgp_read_oid r in
+  let* (_, pt, r2) := pgp_read_mpi r1 in
+  let nist :=                                                  (* ecdsaKey.newECDSA *)
+    match pgp_curve_of_oid oid with
+    | Some name => if pgp_is_nist name then
+                     if point_ok then Ok [alg; (bs "Curve", name)] else Err "failed to parse EC point"
+                   else Err "unsupported oid"
+    | None => Err "unsupported oid"
+    end in
+  if algo =? 19 then nist
+  else if algo =? 18 then
+    let* _ := pgp_read_kdf r2 in
+    if match pgp_curve_of_oid oid with Some name => bytes_eqb name (bs "X25519") | None => false end then
+      if Nat.eqb (length pt) 33 then Ok [alg] else Err "unsupported X25519 point length"   (* a []byte: no Curve *)
+    else nist
+  else (* 22 *)
+    if match pgp_curve_of_oid oid with Some name => bytes_eqb name (bs "Ed25519") | None => false end then
+      if Nat.eqb (length pt) 33 then Ok [alg; (bs "Curve", bs "Ed25519")] else Err "unsupported EdDSA point length"
+    else Err "unknown EdDSA curve".
+
+Definition pgp_key_facts_ec (exact point_ok : bool) (body : bytes) : result (list attr) :=
   let* (hdr, r) := read_full 6 body in
   if negb (nth 0 hdr 0 =? 4) then Err "public key version" else
   let algo := nth 5 hdr 0 in
@@ -753,11 +810,33 @@ Definition pgp_key_facts_gen (exact : bool) (body : bytes) : result (list attr) 
     let* (pbits, praw, r1) := pgp_read_mpi r in
     let* (_, _, r2) := pgp_read_mpi r1 in
     let* (_, _, _) := pgp_read_mpi r2 in facts pbits praw
-  else Err "not an RSA, DSA or ElGamal key".
+  else if (algo =? 18) || (algo =? 19) || (algo =? 22) then pgp_ec_facts point_ok algo r
+  else Err "unsupported public key algorithm".
+Definition pgp_key_facts_gen (exact : bool) (body : bytes) : result (list attr) := pgp_key_facts_ec exact true body.
 Definition pgp_key_facts := pgp_key_facts_gen true.
 
 Definition pgp_public_key (body : bytes) : result info :=
   let* a := pgp_key_facts body in Ok (Info (bs "GPG/PGP public key") a []).
+
+(* a key block: the primary key and its (validly bound: C11) subkeys *)
+Fixpoint pgp_subkeys (bodies : list bytes) : result (list info) :=
+  match bodies with
+  | [] => Ok []
+  | b :: r => let* a := pgp_key_facts b in let* rest := pgp_subkeys r in
+              Ok (Info (bs "GPG/PGP subkey") a [] :: rest)
+  end.
+Definition pgp_key_block (primary : bytes) (subs : list bytes) : result info :=
+  let* a := pgp_key_facts primary in
+  let* ch := pgp_subkeys subs in
+  Ok (Info (bs "GPG/PGP public key") a ch).
+
+(* writers for the elliptic-curve keys (RFC 6637 9, 11; rfc4880bis 13.3) *)
+Definition pgp_ec_body (created algo : N) (oid point kdf : bytes) : bytes :=
+  [4] ++ N_to_be 4 created ++ [algo] ++ [N.of_nat (length oid)] ++ oid ++
+  N_to_be 2 (8 * N.of_nat (length point - 1) + N.size (nth 0 point 0)) ++ point ++ kdf.
+(* the size a reader would derive from an uncompressed point's MPI as (bits - 3) / 2 *)
+Definition pgp_point_half_bits (point : bytes) : N :=
+  (8 * N.of_nat (length point - 1) + N.size (nth 0 point 0) - 3) / 2.
 
 (* writers (RFC 4880 3.2, 5.5.2): an MPI is laid out like the SSH1 one *)
 Definition pgp_mpi_enc : N -> bytes := ssh1_mpi_enc.
